@@ -34,7 +34,12 @@ func getBalancesAggregated(w http.ResponseWriter, r *http.Request) {
 
 	balances, err := backend.LedgerFromContext(r.Context()).GetAggregatedBalances(r.Context(), query)
 	if err != nil {
-		sharedapi.InternalServerError(w, r, err)
+		switch {
+		case ledgerstore.IsErrInvalidQuery(err):
+			sharedapi.BadRequest(w, ErrValidation, err)
+		default:
+			sharedapi.InternalServerError(w, r, err)
+		}
 		return
 	}
 
@@ -59,7 +64,12 @@ func getBalances(w http.ResponseWriter, r *http.Request) {
 
 	cursor, err := l.GetAccountsWithVolumes(r.Context(), q.WithExpandVolumes())
 	if err != nil {
-		sharedapi.InternalServerError(w, r, err)
+		switch {
+		case ledgerstore.IsErrInvalidQuery(err):
+			sharedapi.BadRequest(w, ErrValidation, err)
+		default:
+			sharedapi.InternalServerError(w, r, err)
+		}
 		return
 	}
 
